@@ -30,18 +30,27 @@ import numpy as np
 from harness.common import Ctx, Part, lean_batch_parallel, load_corpus, pmap
 
 THEOREMS = [
+    # identity rule, functionalize
     "IrVerif.PassInfra.C14_identity_rule",
     "IrVerif.PassInfra.C14_identity_violation_raises",
-    "IrVerif.PassInfra.C14_functionalize_fresh",
+    "IrVerif.PassInfra.C14_functionalize_returns_clone",
+    # flags of Sequential / PassManager, honesty of compositions
     "IrVerif.PassInfra.C14_sequential_modified",
     "IrVerif.PassInfra.C14_manager_modified",
     "IrVerif.PassInfra.C14_manager_pass_modified",
     "IrVerif.PassInfra.C14_manager_steps",
+    "IrVerif.PassInfra.C14_sequential_honest",
+    "IrVerif.PassInfra.C14_manager_honest",
+    "IrVerif.PassInfra.C14_functionalize_honest",
+    # rounds / fixpoint
     "IrVerif.PassInfra.C14_rounds",
     "IrVerif.PassInfra.C14_fixpoint",
+    "IrVerif.PassInfra.C14_fixpoint_obs",
     "IrVerif.PassInfra.C14_counting_flag",
     "IrVerif.PassInfra.C14_counting_measure",
     "IrVerif.PassInfra.C14_counting_rounds",
+    "IrVerif.PassInfra.C14_counting_manager",
+    # transcribed passes
     "IrVerif.PassInfra.ClearMeta.C14_flag_clear",
     "IrVerif.PassInfra.ClearMeta.C14_fix_clear",
     "IrVerif.PassInfra.ClearMeta.C14_measure_clear",
@@ -50,23 +59,48 @@ THEOREMS = [
     "IrVerif.PassInfra.InitInputs.C14_add_init_flag",
     "IrVerif.PassInfra.Dce.C14_dce_measure",
     "IrVerif.PassInfra.Dce.C14_dce_contract",
-    "IrVerif.PassInfra.C14_flag_sort",
+    # flags / measures on C05's pass models, sort pass on C12's model
+    "IrVerif.PassInfra.C14_flag_dce",
+    "IrVerif.PassInfra.C14_measure_dce",
+    "IrVerif.PassInfra.C14_flag_lift_const",
+    "IrVerif.PassInfra.C14_measure_lift_const",
+    "IrVerif.PassInfra.C14_flag_dedup",
+    "IrVerif.PassInfra.C14_measure_dedup",
+    "IrVerif.PassInfra.C14_sort_flag_iff",
+    "IrVerif.PassInfra.C14_sort_keeps_sorted",
+    # call_onnx_api, CheckerPass, ShapeInferencePass
     "IrVerif.PassInfra.CApi.C14_c_api_restore",
+    "IrVerif.PassInfra.CApi.C14_c_api_restore_exact",
+    "IrVerif.PassInfra.CApi.C14_c_api_restore_seq",
     "IrVerif.PassInfra.CApi.C14_c_api_no_fault_outcome",
     "IrVerif.PassInfra.CApi.C14_checker_unchanged",
     "IrVerif.PassInfra.CApi.C14_shape_inference_failure_unchanged",
+    "IrVerif.PassInfra.CApi.C14_shape_inference_raise_unchanged",
+    "IrVerif.PassInfra.CApi.C14_shape_merge_flag",
+    "IrVerif.PassInfra.CApi.C14_shape_inference_flag",
 ]
 ASSUMPTIONS = [
-    "passes are modelled as arbitrary functions of an abstract world (identity rule, manager flag, rounds) or "
-    "as counting traversals over an abstract rewrite system; only ClearMetadataAndDocString, the "
-    "TopologicalSort flag, Remove/AddInitializers{From,To}Inputs and RemoveUnusedNodes on graphs without subgraphs "
-    "(without the schema-driven optional-output removal) have concrete transcribed models",
-    "C14_rounds/C14_fixpoint assume a measure that decreases when modified=True and an honest False flag; "
-    "for the built-in passes both are checked by the oracle on generated models, not proved "
-    "(schema-driven passes, CSE, inliner, name fixing: differential only)",
-    "call_onnx_api: the restore statements of the finally block are assumed not to raise on a well-formed "
-    "initializer mapping (distinct keys = value names); ownership flags/ref-counts are not in the model "
-    "(checked by the oracle); serialization and the ONNX C++ call are parameters that may fail arbitrarily",
+    "passes are modelled as arbitrary functions of an abstract world (identity rule, manager flag, honesty of "
+    "compositions, rounds) or as counting traversals over an abstract rewrite system; transcribed models exist for "
+    "ClearMetadataAndDocString, Remove/AddInitializers{From,To}Inputs, RemoveUnusedNodes (flat: own model; nested "
+    "graphs + functions: count next to C05's dceModel), LiftConstantsToInitializers and Deduplicate(Hashed)Initializers "
+    "(counts next to C05's models), the TopologicalSort flag (on C12's passEffect) and the ShapeInference merge",
+    "NO theorem (oracle only, on generated models): flag honesty / fixpoint / measure of NameFix, CSE, Inline, OutputFix, "
+    "IdentityElimination, LiftSubgraphInitializers, AddDefaultAttributes, RemoveUnusedFunctions, RemoveUnusedOpsets and of "
+    "the schema-driven optional-output removal inside RemoveUnusedNodes; use-def/ownership consistency after a pass; "
+    "'sorted stays sorted' for passes other than TopologicalSort; 'names needed for serialization are kept'; "
+    "no theorem is about serialized bytes (the observation `obs` of the honesty/fixpoint theorems is abstract)",
+    "C14_rounds/C14_fixpoint(_obs) assume a measure that decreases when modified=True and an honest False flag; both are "
+    "proved for the transcribed passes above and checked by the oracle for all others",
+    "call_onnx_api / CheckerPass / failed ShapeInference leave the model unchanged EXCEPT tensor.name: serialization "
+    "sets the name of every initializer tensor it reaches to the value name (documented C03 side effect, serde.py "
+    "`value.const_value.name = value.name`); the model, the theorem (SameUpToTensorNames) and the oracle allow exactly "
+    "that; the restore statements of the finally block are assumed not to raise on a well-formed initializer mapping "
+    "(distinct keys = value names); ownership flags/ref-counts are not in the model (checked by the oracle); "
+    "serialization, the ONNX C++ call and the deserialization of the inferred proto are parameters that may fail",
+    "an exception of a built-in pass on a generated model is a failure unless it is on the allow-list of `raise_allowed` "
+    "(checker on unsorted / non-SSA / cyclic models, strict full_check shape errors, cloning or inlining use-before-def "
+    "graphs, InlinePass precondition on cyclic functions, merge of a non-SSA inferred proto, lifting onto an existing name)",
     "Model.clone returns a new object (C13); CPython object identity",
 ]
 
@@ -1654,9 +1688,9 @@ def _concrete_request(part, reqs, case, extra, r, model):
 # ---- RemoveUnusedNodesPass on flat graphs vs the Lean counting-pass instance `Dce`
 
 
-def dce_case(part: Part, reqs: list, seed: int) -> None:
+def _dce_build(seed: int):
+    """A graph without subgraphs for the `Dce` model: (model, state()) - deterministic in `seed`."""
     import onnx_ir as ir
-    import onnx_ir.passes.common as cp
 
     r = random.Random(f"dce:{seed}")
     F = ir.TensorType(ir.DataType.FLOAT)
@@ -1710,6 +1744,14 @@ def dce_case(part: Part, reqs: list, seed: int) -> None:
             "inits": [vid[id(v)] for v in g.initializers.values()],
         }
 
+    return model, state, len(nodes)
+
+
+def dce_case(part: Part, reqs: list, seed: int) -> None:
+    import onnx_ir as ir
+    import onnx_ir.passes.common as cp
+
+    model, state, n_nodes = _dce_build(seed)
     p = cp.RemoveUnusedNodesPass()
     for rnd in range(4):
         before = state()
@@ -1724,7 +1766,116 @@ def dce_case(part: Part, reqs: list, seed: int) -> None:
         )
         if not res.modified:
             break
-    part.case(["dce", seed], bool(nodes), {"dce_seed": seed} if seed % 97 == 0 else None, dce_rounds=rnd + 1, dce_nodes=min(len(nodes), 8))
+    # the same through the real entry point: PassManager([pass], steps, early_stop)(model) vs Pass.run (.mgr ...)
+    r = random.Random(f"dcemgr:{seed}")
+    steps, es = r.choice([0, 1, 2, 3, 5, 9]), r.random() < 0.7
+    model2, state2, _ = _dce_build(seed)
+    before = state2()
+    mgr = ir.passes.PassManager([cp.RemoveUnusedNodesPass()], steps=steps, early_stop=es)
+    try:
+        res = mgr(model2)
+        out = ["ok", 0 if res.model is model2 else 1, bool(res.modified)]
+    except Exception as e:  # noqa: BLE001
+        out = ["raised", _exc_name(e)]
+        part.fail(f"dce-manager/raised/{type(e).__name__}", "PassManager([RemoveUnusedNodesPass()]) raised on a valid graph", {"dce_seed": seed})
+    after = state2()
+    reqs.append(
+        (
+            {"m": "passinfra.dcemgr", **before, "steps": steps, "es": es},
+            {"res": out, "nodes": after["nodes"], "inits": after["inits"]},
+            {"model": "dcemgr", "seed": seed, "steps": steps, "es": es},
+        )
+    )
+    part.case(["dce", seed], bool(n_nodes), {"dce_seed": seed} if seed % 97 == 0 else None, dce_rounds=rnd + 1, dce_nodes=min(n_nodes, 8))
+
+
+# ---- the flags of passes on C05's models of them (`Model/PassFlags.lean`) and of the sort pass on C12's
+
+
+def flags_case(part: Part, reqs: list, seed: int) -> None:
+    """RemoveUnusedNodes / LiftConstantsToInitializers / Deduplicate(Hashed)Initializers: the real flag vs the
+    count transcribed next to C05's pass model, on this harness' models and on C05's generator's models."""
+    import onnx_ir as ir
+    import onnx_ir.passes.common as cp
+    from harness import c05
+
+    r = random.Random(f"flags:{seed}")
+
+    def build():
+        if seed % 2:
+            return build_model(seed, "plain")
+        return ir.serde.deserialize_model(c05.gen_model(random.Random(seed), random.Random(seed + 1).choice([4, 8, 12])))
+
+    lim = r.choice([0, 3, 16])
+    la = r.random() < 0.5
+    dl = r.choice([0, 70, 1024])
+    table = [
+        ("dce", lambda: cp.RemoveUnusedNodesPass()),
+        (f"lift:{int(la)}:{lim}", lambda: cp.LiftConstantsToInitializersPass(lift_all_constants=la, size_limit=lim)),
+        (f"dedup:{dl}", lambda: cp.DeduplicateInitializersPass(size_limit=dl)),
+        (f"dedup:{dl}", lambda: cp.DeduplicateHashedInitializersPass(size_limit=dl)),
+    ]
+    for name, mk in table:
+        try:
+            model = build()
+            enc = c05.Encoder()
+            mj = enc.model(model)
+        except Exception:  # noqa: BLE001 - not expressible in C05's model IR (e.g. an initializer without tensor)
+            part.count("flags:unencodable")
+            continue
+
+        def shape_of_nodes(m):
+            return {
+                id(n): (len(n.outputs), tuple(bool(o.name) for o in n.outputs), tuple(sorted(n.attributes)))
+                for gl, _e, _p in all_graph_likes(m)
+                for n in gl
+            }
+
+        before_nodes = shape_of_nodes(model)
+        try:
+            res = mk()(model)
+        except Exception as e:  # noqa: BLE001
+            part.fail(f"flags/{name.split(':')[0]}/raised/{type(e).__name__}", f"the pass raised on a valid model: {str(e)[:120]}", {"flags_seed": seed})
+            continue
+        if name == "dce":
+            after_nodes = shape_of_nodes(model)
+            if any(after_nodes[k] != v for k, v in before_nodes.items() if k in after_nodes):
+                part.count("flags:dce-optional-output-path")  # schema-driven part: not in C05's model
+                continue
+        reqs.append(
+            (
+                {"m": "passinfra.flags", "model": mj, "pass": name},
+                {"flag": bool(res.modified)},
+                {"model": "flags", "flags_seed": seed, "pass": name, "source": "c14" if seed % 2 else "c05"},
+            )
+        )
+        part.case(["flags", seed, name, type(res).__name__], True, None, flags_pass=name.split(":")[0], flags_flag=bool(res.modified))
+
+
+def sortflag_case(part: Part, reqs: list, seed: int) -> None:
+    """TopologicalSortPass flag vs `sortPassFlag` (C12's model of the pass), on C12's generator's models
+    (permuted nested graphs, functions, sometimes cyclic)."""
+    import onnx_ir as ir
+    from harness import c12
+    from onnx_ir.passes.common.topological_sort import TopologicalSortPass
+
+    case = c12.gen_model_case(random.Random(f"sortflag:{seed}"))
+    bs = [c12.Built(spec, case["variant"], seed=case["sub"] + j) for j, spec in enumerate(case["specs"])]
+    funcs = [ir.Function("d", f"f{j}", graph=b.root, attributes=[]) for j, b in enumerate(bs[1:], start=1)]
+    model = ir.Model(bs[0].root, ir_version=10, functions=funcs)
+    graphs = [b.encode(b.root) for b in bs]
+    before = [b.orders() for b in bs]
+    try:
+        res = TopologicalSortPass()(model)
+        obs = {"raised": False, "flag": bool(res.modified)}
+    except ValueError:
+        obs = {"raised": True}
+    after = [b.orders() for b in bs]
+    # oracle: the flag says exactly whether some graph of the model changed its node order
+    if not obs["raised"] and obs["flag"] != (after != before):
+        part.fail("sortflag/flag-vs-orders", f"modified={obs['flag']} but node orders {'changed' if after != before else 'are unchanged'}", {"sortflag_seed": seed})
+    reqs.append(({"m": "passinfra.sortpass", "graphs": graphs}, obs, {"model": "sortpass", "sortflag_seed": seed}))
+    part.case(["sortflag", seed], True, None, sortflag="raised" if obs["raised"] else f"flag={obs['flag']}")
 
 
 # ---- PassManager compositions of built-in passes, tied to the Lean manager model
@@ -2151,6 +2302,10 @@ def _worker(job):
                 compose_case(part, reqs, it)
             elif kind == "dce":
                 dce_case(part, reqs, it)
+            elif kind == "flags":
+                flags_case(part, reqs, it)
+            elif kind == "sortflag":
+                sortflag_case(part, reqs, it)
             elif kind == "reuse":
                 reuse_case(part, it)
             elif kind == "funcseq":
@@ -2299,6 +2454,8 @@ def run(ctx: Ctx) -> None:
     jobs += [("compose", c) for c in _chunks([rng.randrange(10**9) for _ in range(ctx.pick(800, 8000))], 8)]
     jobs += [("reuse", c) for c in _chunks([rng.randrange(10**9) for _ in range(ctx.pick(48, 480))], 2)]
     jobs += [("funcseq", c) for c in _chunks([rng.randrange(10**9) for _ in range(ctx.pick(600, 6000))], 16)]
+    jobs += [("flags", c) for c in _chunks([rng.randrange(10**9) for _ in range(ctx.pick(300, 3000))], 8)]
+    jobs += [("sortflag", c) for c in _chunks([rng.randrange(10**9) for _ in range(ctx.pick(300, 3000))], 8)]
     jobs += [("dce", c) for c in _chunks([rng.randrange(10**9) for _ in range(ctx.pick(1500, 15000))], 8)]
     # D: every pass x {ok, lazy tensor raises, serialization raises, call raises}
     bitems = []
